@@ -96,8 +96,9 @@ Init == ds \in DefSchemas /\ prog = <<>> /\ stack = <<>> /\ ctes = {} /\ phase =
 Start == /\ phase = "start" /\ \E k \in Kinds : prog' = <<Ev("stmt", k, None, None)>>
          /\ phase' = "with" /\ UNCHANGED <<ds, stack, ctes, out, outDev, fired>>
 StmtKind == prog[1].a
-\* WITH is rendered only for kinds whose grammar takes it in front of the query
-CteOpen == /\ phase = "with" /\ Room /\ Cardinality(ctes) < MaxCte /\ StmtKind \in {"insert", "ctas", "view", "query", "select_into"}
+\* WITH goes in front of the query (insert, ctas, view, query, select into) or in front of the statement (update, merge, delete)
+CteOpen == /\ phase = "with" /\ Room /\ Cardinality(ctes) < MaxCte
+           /\ StmtKind \in {"insert", "ctas", "view", "query", "select_into", "update", "merge", "delete"}
            /\ \E n \in CteNames \ ctes :
                 prog' = Append(prog, Ev("cte", n, None, None)) /\ stack' = <<[Frame("cte") EXCEPT !.role = n]>>
            /\ phase' = "body" /\ UNCHANGED <<ds, ctes, out, outDev, fired>>
